@@ -486,7 +486,10 @@ class Model:
                 name, j = self.kn_target[loc]
                 kn = self.knobs[name]
                 if name in trig_knobs:
-                    return self.val[loc] + kn["weights"][j] * (getval(kn["source"]) - kn["prev"])
+                    src = getval(kn["source"])
+                    if isinstance(src, tuple) or isinstance(kn["prev"], tuple):
+                        raise TypeError("model: a linear knob needs a numeric source")
+                    return self.val[loc] + kn["weights"][j] * (src - kn["prev"])
                 return self.val[loc]
             return self.val[loc]
 
@@ -721,6 +724,8 @@ def _apply(m, op):
             if len(t) != 2 or t in m.defs or t == source or t in ksrc:
                 raise ModelReject("knob target not free")
         cur, _ = m.evaluate(())
+        if isinstance(cur[source], (tuple, list)) or isinstance(cur[source], bool):
+            raise ModelReject("a linear knob needs a numeric source")
         m.knobs[name] = {"source": source, "weights": tuple(weights), "targets": tuple(targets),
                          "prev": cur[source]}
         for j, t in enumerate(targets):
